@@ -437,6 +437,104 @@ fn check_pair(t: CTy, sec_name: &str, sec: &Section, u: Use, ext: &HashMap<(&'st
     }
 }
 
+/// Literal entry points (literal_arg, parse_arg, Evaluator::set_literal, parse_output) of programs
+/// whose parameter / return types nest const-sized arrays: for every (R, C) the program must accept
+/// exactly the values of the substituted type and encode / decode them like the substituted program.
+fn literal_api_cases(cnt: &Cnt, coll: &Collector) {
+    let templates: [(&str, &str, &str); 3] = [
+        ("[[u8;C];R]", "pub fn main(a: [[u8; C]; R], y: u8) -> [[u8; C]; R] {\n  a\n}\n", "nested"),
+        ("[(u8,[bool;C]);R]", "pub fn main(a: [(u8, [bool; C]); R], y: u8) -> [(u8, [bool; C]); R] {\n  a\n}\n", "tuple"),
+        ("[S;R] with S{v:[u8;C]}", "struct S { v: [u8; C], w: bool }\npub fn main(a: [S; R], y: u8) -> [S; R] {\n  a\n}\n", "struct"),
+    ];
+    for (tname, body, kind) in templates {
+        for r in 0..=3usize {
+            for c in 0..=3usize {
+                let src = format!("const R: usize = P::R;\nconst C: usize = Q::C;\n{body}");
+                let site = format!("K/literal-api/{tname}/R={r},C={c}");
+                let mut consts: HashMap<String, HashMap<String, Literal>> = HashMap::new();
+                consts.entry("P".into()).or_default().insert("R".into(), Literal::NumUnsigned(r as u64, UnsignedNumType::Usize));
+                consts.entry("Q".into()).or_default().insert("C".into(), Literal::NumUnsigned(c as u64, UnsignedNumType::Usize));
+                let case = || json!({"kind": "consts", "source": src, "consts": format!("P::R={r},Q::C={c}")});
+                let gp = match subject::compile(&src, Config { register: false, dedup: true }, consts) {
+                    CompileOutcome::Ok(p) => p,
+                    other => {
+                        coll.push(Violation::new("C12", site, "program-with-consts-not-compiled", "", case(), format!("{other:?}").chars().take(300).collect::<String>()));
+                        continue;
+                    }
+                };
+                cnt.pairs.fetch_add(1, Ordering::Relaxed);
+                // the value: element (i, j) = 10 * i + j + 1
+                let u8l = |v: usize| Literal::NumUnsigned(v as u64, UnsignedNumType::U8);
+                let mut rows = vec![];
+                let mut bits: Vec<bool> = vec![];
+                let push_u8 = |bits: &mut Vec<bool>, v: usize| bits.extend((0..8).rev().map(|k| (v >> k) & 1 == 1));
+                let mut text_rows = vec![];
+                for i in 0..r {
+                    match kind {
+                        "nested" => {
+                            rows.push(Literal::Array((0..c).map(|j| u8l(10 * i + j + 1)).collect()));
+                            (0..c).for_each(|j| push_u8(&mut bits, 10 * i + j + 1));
+                            text_rows.push(format!("[{}]", (0..c).map(|j| (10 * i + j + 1).to_string()).collect::<Vec<_>>().join(", ")));
+                        }
+                        "tuple" => {
+                            rows.push(Literal::Tuple(vec![u8l(i + 1), Literal::Array((0..c).map(|j| if (i + j) % 2 == 0 { Literal::True } else { Literal::False }).collect())]));
+                            push_u8(&mut bits, i + 1);
+                            (0..c).for_each(|j| bits.push((i + j) % 2 == 0));
+                            text_rows.push(format!("({}, [{}])", i + 1, (0..c).map(|j| ((i + j) % 2 == 0).to_string()).collect::<Vec<_>>().join(", ")));
+                        }
+                        _ => {
+                            rows.push(Literal::Struct("S".into(), vec![("v".into(), Literal::Array((0..c).map(|j| u8l(10 * i + j + 1)).collect())), ("w".into(), Literal::True)]));
+                            (0..c).for_each(|j| push_u8(&mut bits, 10 * i + j + 1));
+                            bits.push(true);
+                            text_rows.push(format!("S {{v: [{}], w: true}}", (0..c).map(|j| (10 * i + j + 1).to_string()).collect::<Vec<_>>().join(", ")));
+                        }
+                    }
+                }
+                let lit = Literal::Array(rows);
+                let text = format!("[{}]", text_rows.join(", "));
+                // a zero-length array has no spelling (known C09 finding): only the programmatic literal then
+                let has_text = r > 0 && (c > 0 || kind != "nested") && !(kind != "nested" && c == 0);
+                let l2 = lit.clone();
+                match catch(|| gp.literal_arg(0, l2).map(|a| a.as_bits()).map_err(|e| format!("{e:?}"))) {
+                    Ok(Ok(b)) if b == bits => {}
+                    other => coll.push(Violation::new("C12", site.clone(), "literal_arg-does-not-follow-consts", "", case(), format!("literal {lit} gave {other:?}, expected the {} bits of the substituted type", bits.len()))),
+                }
+                if has_text {
+                    let t2 = text.clone();
+                    match catch(|| gp.parse_arg(0, &t2).map(|a| a.as_bits()).map_err(|e| format!("{e:?}"))) {
+                        Ok(Ok(b)) if b == bits => {}
+                        other => coll.push(Violation::new("C12", site.clone(), "parse_arg-does-not-follow-consts", "", case(), format!("text {text} gave {other:?}"))),
+                    }
+                }
+                // a value of the wrong length must be refused
+                if r > 0 {
+                    if let Literal::Array(mut rows2) = lit.clone() {
+                        rows2.pop();
+                        let l3 = Literal::Array(rows2);
+                        if let Ok(Ok(_)) = catch(|| gp.literal_arg(0, l3).map(|a| a.as_bits().len())) {
+                            coll.push(Violation::new("C12", site.clone(), "literal_arg-accepts-wrong-length", "", case(), "an array with R-1 rows was accepted".to_string()));
+                        }
+                    }
+                }
+                // through the evaluator and back
+                let l4 = lit.clone();
+                let r_eval = catch(|| {
+                    let mut ev = gp.evaluator();
+                    ev.set_literal(l4).map_err(|e| format!("set_literal: {e:?}"))?;
+                    ev.set_u8(9);
+                    let out = ev.run().map_err(|e| format!("run: {e:?}"))?;
+                    out.into_literal().map_err(|e| format!("into_literal: {e:?}"))
+                });
+                cnt.evals.fetch_add(1, Ordering::Relaxed);
+                match r_eval {
+                    Ok(Ok(l)) if l == lit => {}
+                    other => coll.push(Violation::new("C12", site.clone(), "evaluator-roundtrip-does-not-follow-consts", "", case(), format!("identity program on {lit}: {other:?}"))),
+                }
+            }
+        }
+    }
+}
+
 fn error_cases(cnt: &Cnt, coll: &Collector) {
     // two externals of different parties, one u8 and one usize
     let src = "const A: usize = P::A;\nconst B: u8 = Q::B;\nconst C: u8 = Q::C;\npub fn main(x: u8) -> [u8; A] {\n  [x + B + C; A]\n}\n";
@@ -604,6 +702,7 @@ pub fn run(tier: Tier) -> i32 {
         check_pair(j.t, &j.name, &j.sec, j.u, &j.ext, &cnt, &coll);
     });
     error_cases(&cnt, &coll);
+    literal_api_cases(&cnt, &coll);
     let sample = |i: usize| {
         let j = &jobs[i];
         json!({"type": j.t.name(), "consts": decls(j.t, &j.sec), "use": format!("{:?}", j.u), "externals": format!("{:?}", j.ext)})
@@ -615,7 +714,7 @@ pub fn run(tier: Tier) -> i32 {
         coverage: json!({
             "evaluations": cnt.evals.load(Ordering::Relaxed) + cnt.error_cases.load(Ordering::Relaxed),
             "distinct_nontrivial": cnt.nontrivial.load(Ordering::Relaxed),
-            "rule": "const sections (external, literal, reference to an earlier const, min/max/+/- incl. nested, 1-3 declarations, two parties) for usize/u8/i8/u16/i64/bool x use templates (array type size, repeat size, single-array-parameter parties, loop count, value use, index, const-expression size) x ALL assignments of the externals over {0,1,2,3,MAX-1,MAX,MIN,-1} (sizes {0,1,2,3,5,MAX}); thorough additionally enumerates EVERY constant expression with <= 2 operators (min/max/+/-, nested either side, parenthesised) over the atoms {A = P::A, Q::B, 1, 2, MAX} as `const B = <expr>` for each type; differential oracle: the same program with the harness-evaluated values (wrapping arithmetic of the constant's type) substituted as literals must have the same party sizes, output width and outputs on every input; failure space: every combination of {fine, missing, 6 wrongly typed literals} for 3 declared constants, with and without extra unknown constants; non-trivial = pair whose outputs take >= 2 distinct values",
+            "rule": "const sections (external, literal, reference to an earlier const, min/max/+/- incl. nested, 1-3 declarations, two parties) for usize/u8/i8/u16/i64/bool x use templates (array type size, repeat size, single-array-parameter parties, loop count, value use, index, const-expression size) x ALL assignments of the externals over {0,1,2,3,MAX-1,MAX,MIN,-1} (sizes {0,1,2,3,5,MAX}); thorough additionally enumerates EVERY constant expression with <= 2 operators (min/max/+/-, nested either side, parenthesised) over the atoms {A = P::A, Q::B, 1, 2, MAX} as `const B = <expr>` for each type; differential oracle: the same program with the harness-evaluated values (wrapping arithmetic of the constant's type) substituted as literals must have the same party sizes, output width and outputs on every input; literal entry points (literal_arg, parse_arg, Evaluator::set_literal / run / into_literal) of identity programs whose parameter and return types nest const-sized arrays ([[u8;C];R], [(u8,[bool;C]);R], [S;R] with a const-sized field) for all R, C in 0..=3; failure space: every combination of {fine, missing, 6 wrongly typed literals} for 3 declared constants, with and without extra unknown constants; non-trivial = pair whose outputs take >= 2 distinct values",
             "samples": [sample(0), sample(jobs.len() / 2), sample(jobs.len() - 1)],
             "program_assignment_pairs": cnt.pairs.load(Ordering::Relaxed),
             "pairs_skipped_size_over_48": cnt.skipped_big.load(Ordering::Relaxed),
